@@ -19,7 +19,7 @@ theorem class_bridge : (List.range 128).all (fun v => !isClass v || isClassU8 v.
 
 theorem searchKeyword_cases (w : Bytes) :
     searchKeyword w = 0 ∨ (isClassU8 (searchKeyword w) = true ∧ (searchKeyword w = 102 → 2 ≤ w.length) ∧ 1 ≤ w.length) := by
-  unfold searchKeyword
+  rw [searchKeyword_eq]; unfold searchKeywordSpec
   simp only []
   cases hl : lookupKw (goUpper w).length (keyNat (goUpper w)) with
   | none => left; rfl
